@@ -37,20 +37,19 @@ SCHEMAS = {
     "bitat-def": "definitional (Lean Pydsdl.Bit, byteAt): Bit d p = (byteAt d (p/8) / 2^(p%8)) % 2, Bits.Bit_le_one",
     "pow2-succ": "Nat.pow_succ: 2^(k+1) = 2 * 2^k; Nat.pos_pow_of_pos",
     "pow2-add": "Nat.pow_add: 2^(a+b) = 2^a * 2^b",
-    "pow2-mono": "Nat.pow_le_pow_right: a <= b -> 2^a <= 2^b",
+    "pow2-mono": "Lean Bits.pow2_mono (Nat.pow_le_pow_right): a <= b -> 2^a <= 2^b",
     "bitsval-split": "Lean Bits.bitsval_split",
     "bitsval-view": "Lean Bits.bitsval_view: equal zero-extended bytes on a byte range give equal bitsval",
     "from-bytes": "Lean Bits.fromBytesLE_eq_bitsval: the little-endian base-256 value of n bytes is bitsval d 0 (8n)",
     "or-disjoint": "Lean Bits.or_disjoint: x < 2^i -> x ||| (b <<< i) = x + b * 2^i",
-    "lsb-def": "definitional (Lean Pydsdl.lsb): lsb v n = v mod 2^n; Int.emod_nonneg, Int.emod_lt_of_pos",
+    "lsb-def": "definitional (Lean Pydsdl.lsb): lsb v n = v mod 2^n; Lean Bits.lsb_nonneg_lt",
     "lsb-split": "Lean Bits.lsb_split: lsb v (a+b) = lsb v a + 2^a * lsb (v / 2^a) b",
     "lsb-of-small": "Lean Bits.lsb_of_lt: 0 <= v < 2^n -> lsb v n = v",
-    "lsb-step": "Lean Bits.lsb_succ: lsb v (i+1) = lsb v i + bitof v i * 2^i, bitof v i = (v / 2^i) % 2",
-    "bitsval-append": "Lean Bits.bitsval_append_left / bitsval_append_right (reads inside the old bytes are unchanged; "
-                      "a read starting at the old end reads the appended bytes)",
-    "bitsval-setbit": "Lean Bits.bitsval_set_bit_lt / bitsval_set_bit_ge (adding 2^(p%8) to byte p/8 whose bit p is 0)",
-    "bitsval-prefix-zero": "Lean Bits.bitsval_high_zero: bitsval d 0 m < 2^q, q <= p -> Bit d p = 0 for p < m",
-    "bitsval-beyond": "Lean Bits.bitsval_beyond: off >= 8 * len -> bitsval d off k = 0",
+    "lsb-step": "Lean Bits.lsb_succ: lsb v (i+1) = lsb v i + (v / 2^i % 2) * 2^i",
+    "bitsval-append": "Lean Bits.bitsval_append_left / bitsval_append_right / bitsval_zero_ext (reads inside the old bytes are "
+                      "unchanged; a read starting at the old end reads the appended bytes; appended zero bytes change nothing)",
+    "bitsval-setbit": "Lean Bits.set_bit_byte_range / set_bit_read / set_bit_below / set_bit_tail (in-place |= / &= ~ of one bit of a byte in a buffer whose bits from that position upwards are zero)",
+        "bitsval-beyond": "Lean Bits.bitsval_beyond: off >= 8 * len -> bitsval d off k = 0",
 }
 USED = set()
 
